@@ -444,9 +444,10 @@ func vfC11(c *hx.Ctx) {
 		{"two-peers/sched", vfC11Cfg{Peers: 2, K: 0, Bound: hx.Pick(c, 1, 2)}},
 		{"two-peers/sched/inject", vfC11Cfg{Peers: 2, K: 0, Inject: true, Bound: 1}},
 	}
-	per := (len(units) + 3 + max(c.Of, 1) - 1) / max(c.Of, 1)
+	per := (len(units) + 4 + max(c.Of, 1) - 1) / max(c.Of, 1)
 	left := time.Until(c.Deadline)
 	vfC11Reconnect(c, left/time.Duration(max(per, 1)))
+	vfC11Saturated(c)
 	for _, x := range units {
 		c.UnitBudget = left / time.Duration(max(per, 1))
 		c.Explore(x.name, map[string]any{"peers": x.cf.Peers, "K": x.cf.K, "backlog": x.cf.Backlog, "cipher": x.cf.Cipher, "fec": []int{x.cf.DS, x.cf.PS}, "inject": x.cf.Inject, "deviation_bound": x.cf.Bound, "batch_io": x.cf.Batch}, x.cf.Bound, vfC11Run(x.cf))
